@@ -45,6 +45,12 @@ type input struct {
 	After  bool           `json:"after,omitempty"` // FailAfter instead of Fail
 	Commit bool           `json:"commit_first,omitempty"` // race: winner commits before the loser's Add
 	K      int            `json:"k,omitempty"`
+	// retry: the creator also modifies the existing store "ledger"; Rivals other writers commit on
+	// "ledger" before the creator's Commit (so phase 1 does its partial rollback and retries);
+	// Clash: a rival adds the creator's own key (the retry's merge fails for good)
+	Rivals      int  `json:"rivals,omitempty"`
+	Clash       bool `json:"clash,omitempty"`
+	CreateFirst bool `json:"create_first,omitempty"`
 }
 
 var dirSeq int
@@ -289,6 +295,123 @@ func runRace(res *hx.Result, in input) {
 	res.AddCase(fmt.Sprintf("RaceCase %s %s %s", hx.CoqBool(in.Commit), hx.CoqBool(err2 != nil), hx.CoqBool(p.InList && p.Info)), in)
 }
 
+// ---------------------------------------------------------------- retry (creator hits a conflict, retries)
+
+func runRetry(res *hx.Result, in input) {
+	e, _ := sopx.NewEnv(newDir(), hashMod)
+	defer os.RemoveAll(e.Folder)
+	ledger := sopx.StoreOpts{Name: "ledger", Slot: 4, Unique: true, InNode: true}
+	t0, _ := e.NewTxn(bg, sop.ForWriting, time.Minute, "setup", true)
+	t0.Begin(bg)
+	lb, err := t0.NewStore(bg, ledger)
+	if err == nil {
+		_, err = lb.Add(bg, 1, "one")
+	}
+	if err == nil {
+		err = t0.Commit(bg)
+	}
+	if err != nil {
+		res.Fail("harness-error", "ledger setup: "+err.Error(), in)
+		return
+	}
+	t1, _ := e.NewTxn(bg, sop.ForWriting, 8*time.Second, "creator", true)
+	t1.Begin(bg)
+	var opErr error
+	doLedger := func() {
+		if opErr != nil {
+			return
+		}
+		b, err := t1.OpenStore(bg, "ledger")
+		if err == nil {
+			_, err = b.Add(bg, 100, "creator")
+		}
+		opErr = err
+	}
+	doCreate := func() {
+		if opErr != nil {
+			return
+		}
+		b, err := t1.NewStore(bg, in.Opts)
+		if err == nil {
+			err = addItems(b, in.N)
+		}
+		opErr = err
+	}
+	if in.CreateFirst {
+		doCreate()
+		doLedger()
+	} else {
+		doLedger()
+		doCreate()
+	}
+	if opErr != nil {
+		res.Fail("harness-error", "creator ops: "+opErr.Error(), in)
+		return
+	}
+	rivalOK := 0
+	for i := 0; i < in.Rivals; i++ {
+		t2, _ := e.NewTxn(bg, sop.ForWriting, 8*time.Second, fmt.Sprint("rival", i), true)
+		t2.Begin(bg)
+		b, err := t2.OpenStore(bg, "ledger")
+		key := 200 + i
+		if in.Clash && i == 0 {
+			key = 100
+		}
+		if err == nil {
+			_, err = b.Add(bg, key, "rival")
+		}
+		if err == nil {
+			err = t2.Commit(bg)
+		}
+		if err == nil {
+			rivalOK++
+		}
+	}
+	cerr := t1.Commit(bg)
+	p := observe(e, in.Opts.Name)
+	l := observe(e, "ledger")
+	res.Seen(fmt.Sprintf("retry:%+v:%d:%d:%v:%v", in.Opts, in.N, in.Rivals, in.Clash, in.CreateFirst), true)
+	res.Count("retry")
+	res.Count(fmt.Sprintf("retry.rivals.%d", in.Rivals))
+	if cerr == nil {
+		res.Count("retry.creator_committed")
+		if !(p.InGetStores && p.Opens && p.Folder && p.InList && p.Info) || p.Items != in.N || p.Count != int64(in.N) || p.Err != "" {
+			res.Fail("retry:committed-store-incomplete", fmt.Sprintf("creator's Commit returned nil after %d rival commits but its store is %+v", in.Rivals, p), in)
+		}
+		if l.Items != 2+rivalOK {
+			res.Fail("retry:ledger-wrong", fmt.Sprintf("ledger has %d items, want %d", l.Items, 2+rivalOK), in)
+		}
+	} else {
+		res.Count("retry.creator_failed")
+		if p.any() {
+			res.Fail("abort:store-survives", fmt.Sprintf("store %q created in a transaction whose Commit failed after a conflict retry (%d rival commits, clash=%v): %v; still exists: %+v", in.Opts.Name, in.Rivals, in.Clash, cerr, p), in)
+		}
+		if l.Items != 1+rivalOK || l.Count != int64(1+rivalOK) {
+			res.Fail("retry:ledger-wrong", fmt.Sprintf("ledger has %d items (count %d), want %d", l.Items, l.Count, 1+rivalOK), in)
+		}
+		if in.Rivals > 0 && !in.Clash {
+			addNote(res, "a creator whose commit needs a retry fails although the conflict is mergeable: "+stripPath(cerr.Error()))
+		}
+	}
+	res.AddCase(fmt.Sprintf("RetryCase %s %s %s %s", hx.CoqNat(in.Rivals), hx.CoqBool(in.Clash), hx.CoqBool(cerr == nil), hx.CoqBool(p.any())), in)
+}
+
+func addNote(res *hx.Result, n string) {
+	for _, x := range res.Notes {
+		if x == n {
+			return
+		}
+	}
+	res.Notes = append(res.Notes, n)
+}
+
+func stripPath(s string) string {
+	if i := strings.Index(s, "/var/tmp/"); i >= 0 {
+		return s[:i] + "<path>"
+	}
+	return s
+}
+
 // ---------------------------------------------------------------- serial
 
 func runSerial(res *hx.Result, in input) {
@@ -398,6 +521,8 @@ func dispatch(res *hx.Result, in input) {
 		runAbort(res, in)
 	case "race":
 		runRace(res, in)
+	case "retry":
+		runRetry(res, in)
 	case "serial":
 		runSerial(res, in)
 	case "recreate":
@@ -439,6 +564,24 @@ func run(cfg *hx.RunCfg) (*hx.Result, error) {
 	dispatch(res, input{Kind: "abort", Opts: optsList[2], N: 3, End: "rollback"})
 	dispatch(res, input{Kind: "race", Opts: optsList[0], N: 3, Commit: true})
 	dispatch(res, input{Kind: "race", Opts: optsList[0], N: 3, Commit: false})
+	// creator + concurrent committed conflicting writer: the demo history first (clash on key 100)
+	audit := func(o sopx.StoreOpts) sopx.StoreOpts { o.Name = "audit"; return o }
+	dispatch(res, input{Kind: "retry", Opts: audit(optsList[0]), N: 3, Rivals: 1, Clash: true})
+	dispatch(res, input{Kind: "retry", Opts: audit(optsList[0]), N: 3, Rivals: 1, Clash: false})
+	dispatch(res, input{Kind: "retry", Opts: audit(optsList[0]), N: 3, Rivals: 0})
+	for _, o := range optsList {
+		for _, cf := range []bool{false, true} {
+			dispatch(res, input{Kind: "retry", Opts: audit(o), N: hx.Pick(r, []int{0, 1, 4, 9}), Rivals: 1 + r.Intn(2), Clash: true, CreateFirst: cf})
+			dispatch(res, input{Kind: "retry", Opts: audit(o), N: hx.Pick(r, []int{0, 1, 4, 9}), Rivals: 1 + r.Intn(3), Clash: false, CreateFirst: cf})
+		}
+	}
+	nretry := 4
+	if thorough {
+		nretry = 40
+	}
+	for i := 0; i < nretry; i++ {
+		dispatch(res, input{Kind: "retry", Opts: audit(hx.Pick(r, optsList)), N: r.Intn(10), Rivals: r.Intn(4), Clash: r.Bool(), CreateFirst: r.Bool()})
+	}
 	for _, o := range optsList {
 		for _, n := range []int{0, 1, 5, 12} {
 			dispatch(res, input{Kind: "abort", Opts: o, N: n, End: "rollback"})
